@@ -249,6 +249,10 @@ def run_integration(spec):
         o.classes["user_step"] = "none" if user is None else ("below" if user <= limit else "above")
         o.check(abs(min(r.min_dz["dz"]) - limit) <= 1e-9 * limit, "stored_requirement_differs",
                 "Reactor.min_dz %r vs re-evaluated %r" % (min(r.min_dz["dz"]), limit))
+        bad = [(i, float(a_), b_) for i, (a_, b_) in enumerate(zip(r.min_dz["dz"], lims)) if abs(a_ - b_) > 1e-9 * b_]
+        o.check(not bad and len(r.min_dz["dz"]) == len(lims), "assembly_requirement_differs",
+                "(index, stored, re-evaluated) %s" % bad[:3])
+        o.classes["bc_temp"] = any("FLOWRATE" not in row[4] for row in sp["assignment"])
         clipped = check_mesh(o, r.z, r.dz, r.axial_bnds, r.core_length, r.req_dz, limit, user, boundaries)
         o.check(abs(r.core_length - L) <= 1e-12, "core_length")
         o.nontrivial = len(boundaries) >= 3 and clipped >= 1
@@ -259,7 +263,8 @@ def run_integration(spec):
 def integration_cases(draw):
     spec = draw(gen.core_spec(core_rings=(1, 2), n_types=(1, 3), rings=(2, 4), ducts=(1, 2),
                               gap_models=("flow", "none", "no_flow"), regimes=("lam", "tra", "tur"),
-                              n_steps=(20, 120), regions=True, lowfi=True, max_cells=4, byp_frac=(0.02, 0.3)))
+                              n_steps=(20, 120), regions=True, lowfi=True, max_cells=4, byp_frac=(0.02, 0.3),
+                              bc_kinds=("FLOWRATE", "OUTLET_TEMP", "DELTA_TEMP")))
     if draw(st.booleans()):
         spec["setup"]["axial_plane_frac"] = [round(draw(gen.fl(0.0, 1.0)), 4) for _ in range(draw(st.integers(1, 4)))]
     k = draw(st.integers(0, 2))
